@@ -188,7 +188,9 @@ func c16Proposal(c *fw.Ctx, e *Env, g *Gen, r *fw.Rand) {
 			n := r.Range(1, 4)
 			for i := 0; i < n; i++ {
 				a := e.L.Accts[r.Intn(len(e.L.Accts))]
-				switch r.Weighted([]int{70, 8, 8, 6, 8}) {
+				switch r.Weighted([]int{70, 8, 8, 6, 8, 8}) {
+				case 5: // a well-formed address with a blank before or after it ("a, b" / "a ,b" / tab / newline)
+					s = append(s, []string{" " + a.Addr.String(), a.Addr.String() + " ", "\t" + a.Addr.String(), a.Addr.String() + "\n"}[r.Intn(4)])
 				case 0:
 					s = append(s, a.Addr.String())
 				case 1:
